@@ -338,7 +338,9 @@ class SamplerCore:
         import numpy as np
 
         if self.config.vectorize:
-            return self.config.log_likelihood(x), None
+            # Log-likelihoods are stored as float64 whatever the user's function
+            # hands back (float32 arrays, lists), as the pointwise path does
+            return np.asarray(self.config.log_likelihood(x), dtype=float), None
         elif self.config.pool is not None:
             results = list(self._get_distribute_func()(self.config.log_likelihood, x))
         else:
